@@ -3,6 +3,7 @@
 use crate::{
     canon::{canonicalize_path, to_owned_canon_path},
     db,
+    densemap::Index,
     eval::{self, EvalPart, EvalString},
     graph::{self, FileId, RspFile},
     parse::{self, Statement},
@@ -254,6 +255,9 @@ impl Loader {
 /// State loaded by read().
 pub struct State {
     pub graph: graph::Graph,
+    /// The number of files the manifest names; files with higher ids are
+    /// only known from the build log.
+    pub manifest_files: usize,
     pub db: db::Writer,
     pub hashes: graph::Hashes,
     pub default: Vec<FileId>,
@@ -275,6 +279,7 @@ pub fn read(build_filename: &str) -> anyhow::Result<State> {
         loader.parse_with_parser(&mut parser, path, &[])
     })?;
 
+    let manifest_files = loader.graph.files.by_id.next_id().index();
     let mut hashes = graph::Hashes::default();
     let db = trace::scope("db::open", || {
         let mut db_path = PathBuf::from(".n2_db");
@@ -290,6 +295,7 @@ pub fn read(build_filename: &str) -> anyhow::Result<State> {
 
     Ok(State {
         graph: loader.graph,
+        manifest_files,
         db,
         hashes,
         default: loader.default,
